@@ -52,7 +52,7 @@ impl Prop for C35 {
             let mut msg = 0u64;
             let len = if tier == Tier::Thorough { rng.range(5, 80) } else { rng.range(3, 40) };
             for _ in 0..len {
-                match rng.weighted(&[6, 6, 10, 2, 2, 1, 1]) {
+                match rng.weighted(&[6, 6, 10, 3, 2, 1, 1, 2]) {
                     0 => {
                         if queued < 40 {
                             if rng.chance(1, 8) {
@@ -129,7 +129,13 @@ impl Prop for C35 {
                             }
                             let kind = if i == total - 1 { "F" } else { "C" };
                             let kind = if rng.chance(1, 40) { *rng.pick(&["F", "C"]) } else { kind };
-                            out.push(format!("chunk {} {} {} {} {} {}", rid, base + i, kind, msg, i, total));
+                            // the chunk's message type does not matter to the client transport
+                            let mt = match rng.weighted(&[10, 1, 1]) {
+                                0 => "",
+                                1 => " O",
+                                _ => " C",
+                            };
+                            out.push(format!("chunk {} {} {} {} {} {}{}", rid, base + i, kind, msg, i, total, mt));
                             if kind == "F" {
                                 completes = true;
                             }
@@ -147,7 +153,8 @@ impl Prop for C35 {
                     }
                     3 => {
                         // time passes for one request: its deadline is now past / near / far
-                        let k = *rng.pick(&[-1000i64, -100, 0, 100, 200, 300, 5000, 80000]);
+                        // few distinct values, so that ties and the boundary `deadline == now` occur
+                        let k = *rng.pick(&[-1000i64, -100, 0, 0, 100, 100, 200, 300, 5000, 80000]);
                         if !rids.is_empty() && rng.chance(3, 4) {
                             let rid = *rng.pick(&rids);
                             out.push(format!("deadline {} {}", rid, k));
@@ -163,7 +170,14 @@ impl Prop for C35 {
                         nr_pos.clear();
                         rids.clear();
                     }
-                    _ => out.push(format!("errmsg {}", *rng.pick(&["2147811328", "2155675648", "2147549184", "0", "ack", "hello"]))),
+                    6 => out.push(format!("errmsg {}", *rng.pick(&["2147811328", "2155675648", "2147549184", "0", "ack", "hello"]))),
+                    _ => {
+                        // the transport sleeps until the instant it asked for and looks again
+                        out.push("wake".to_string());
+                        if rng.chance(1, 2) {
+                            rids.clear(); // most of them are gone now; chunks for them exercise the unknown-id path
+                        }
+                    }
                 }
             }
             // a case ends with the transport closing: every request must have completed by then
@@ -181,7 +195,7 @@ impl Prop for C35 {
 /// all interleavings of: 2 requests submitted and pumped, a 2-chunk response for the first, a
 /// 1-chunk response for the second, the first request's deadline passing, and a sweep
 fn exhaustive_small(rng: &mut Rng, out: &mut Vec<String>) {
-    let events = ["chunk 1001 1 C 1 0 2", "chunk 1001 2 F 1 1 2", "chunk 1002 3 F 2 0 1", "deadline 1001 -100", "sweep"];
+    let events = ["chunk 1001 1 C 1 0 2", "chunk 1001 2 F 1 1 2", "chunk 1002 3 F 2 0 1", "deadline 1001 100", "deadline 1002 200", "wake", "sweep"];
     // one random permutation per call keeps quick runs short; thorough runs call this often
     let mut idx: Vec<usize> = (0..events.len()).collect();
     for i in (1..idx.len()).rev() {
@@ -242,8 +256,11 @@ struct R {
     queued: usize,
     /// what is in the request channel, oldest first: the request waiting for a response, if any
     channel: std::collections::VecDeque<Option<usize>>,
-    /// instant that deadlines given in ops are relative to
-    base: Instant,
+    /// virtual clock in seconds: the deadlines stored in the transport are kept at
+    /// `Instant::now() + (deadline - clock)`, so "the clock advances" = every stored deadline moves closer
+    clock: i64,
+    /// deadline (virtual seconds) of every registered request, by transport request id
+    dl: BTreeMap<u32, i64>,
     closed: bool,
     max_inflight: usize,
     /// status the requests must get from the `close` that is being executed
@@ -265,7 +282,8 @@ impl R {
             seen_for_rid: BTreeMap::new(),
             queued: 0,
             channel: std::collections::VecDeque::new(),
-            base: Instant::now(),
+            clock: 0,
+            dl: BTreeMap::new(),
             closed: false,
             max_inflight: 0,
             closing: None,
@@ -282,6 +300,64 @@ impl R {
 
     /// collects newly finished requests; the oracle checks each completion as it appears
     fn collect(&mut self, op_class: &str) -> (String, Verdict) {
+        let (done, verdict) = self.collect_raw(op_class);
+        (self.fmt_state(&done), verdict)
+    }
+
+    fn fmt_state(&self, done: &[String]) -> String {
+        let mut pend = self.transport.as_ref().map(|t| t.pending()).unwrap_or_default();
+        pend.sort();
+        let pend: Vec<String> = pend.iter().map(|(r, n)| format!("{}:{}", r, n)).collect();
+        let seq = self.transport.as_ref().map(|t| t.last_received_sequence_number()).unwrap_or(0);
+        format!("done=[{}] pend=[{}] seq={}", done.join(","), pend.join(","), seq)
+    }
+
+    /// stores the (virtual) deadline of a pending request in the transport
+    fn store_deadline(&mut self, rid: u32, abs: i64) -> bool {
+        let rel = abs - self.clock;
+        let at = if rel >= 0 {
+            Instant::now() + Duration::from_secs(rel as u64)
+        } else {
+            Instant::now().checked_sub(Duration::from_secs((-rel) as u64)).unwrap_or_else(Instant::now)
+        };
+        let ok = self.transport.as_mut().unwrap().set_deadline(rid, at);
+        if ok {
+            self.dl.insert(rid, abs);
+        }
+        ok
+    }
+
+    /// an instant returned by `next_timeout`, in whole hundreds of seconds from the virtual now
+    fn rel(&self, t: Instant) -> i64 {
+        let secs = t.saturating_duration_since(Instant::now()).as_secs_f64();
+        ((secs / 100.0).round() as i64) * 100
+    }
+
+    /// The property on the wake-up the transport asks for: it must not lie after the deadline of any
+    /// pending request (else that request is completed late), and after a sweep nothing overdue may
+    /// still be pending.
+    fn schedule_oracle(&self, next: Option<Instant>, class: &str) -> Verdict {
+        let pending: Vec<u32> = self.transport.as_ref().unwrap().pending().iter().map(|x| x.0).collect();
+        for rid in &pending {
+            if let Some(d) = self.dl.get(rid) {
+                if *d <= self.clock {
+                    return Verdict::fail("timeout_on_schedule", class, format!("request id {} is overdue by {} s and still pending after a sweep", rid, self.clock - d));
+                }
+            }
+        }
+        let earliest = pending.iter().filter_map(|r| self.dl.get(r)).map(|d| d - self.clock).min();
+        match (next.map(|t| self.rel(t)), earliest) {
+            (Some(n), Some(e)) if n > e => Verdict::fail(
+                "wakeup_not_after_deadline",
+                class,
+                format!("the transport asks to be woken in {} s although a pending request is due in {} s", n, e),
+            ),
+            (None, Some(e)) => Verdict::fail("wakeup_not_after_deadline", class, format!("no wake-up requested although a request is due in {} s", e)),
+            _ => Verdict::Ok,
+        }
+    }
+
+    fn collect_raw(&mut self, op_class: &str) -> (Vec<String>, Verdict) {
         self.settle();
         let mut done = Vec::new();
         let mut verdict = Verdict::Ok;
@@ -336,10 +412,19 @@ impl R {
                     }
                 }
                 Outcome::Err(st) if *st == StatusCode::BadTimeout.bits() => {
-                    if req.expired || (req.late && req.rid.is_some()) {
-                        Verdict::Ok
-                    } else {
-                        Verdict::fail("timeout_only_after_deadline", op_class, format!("request {} timed out before its deadline", i))
+                    match req.rid.and_then(|rid| self.dl.get(&rid)) {
+                        Some(d) if *d > self.clock => Verdict::fail(
+                            "timeout_only_after_deadline",
+                            op_class,
+                            format!("request {} timed out {} s before its deadline", i, d - self.clock),
+                        ),
+                        Some(d) if *d < self.clock && op_class == "wake" => Verdict::fail(
+                            "timed_out_late",
+                            op_class,
+                            format!("request {} timed out {} s after its deadline although the transport chose the wake-up itself", i, self.clock - d),
+                        ),
+                        Some(_) => Verdict::Ok,
+                        None => Verdict::fail("timeout_only_after_deadline", op_class, format!("request {} timed out before it was sent", i)),
                     }
                 }
                 Outcome::Err(_) => Verdict::Ok,
@@ -365,11 +450,7 @@ impl R {
                 verdict = Verdict::fail("exactly_once_after_close", op_class, format!("request {} never completed", i));
             }
         }
-        let mut pend = self.transport.as_ref().map(|t| t.pending()).unwrap_or_default();
-        pend.sort();
-        let pend: Vec<String> = pend.iter().map(|(r, n)| format!("{}:{}", r, n)).collect();
-        let seq = self.transport.as_ref().map(|t| t.last_received_sequence_number()).unwrap_or(0);
-        (format!("done=[{}] pend=[{}] seq={}", done.join(","), pend.join(","), seq), verdict)
+        (done, verdict)
     }
 }
 
@@ -451,7 +532,8 @@ impl Runner for R {
                 self.transport = Some(t);
                 self.sender = Some(s);
                 self.max_inflight = mi;
-                self.base = Instant::now();
+                self.clock = 0;
+                self.dl.clear();
                 let (st, v) = self.collect("reset");
                 (format!("ok {}", st), v)
             }
@@ -524,6 +606,9 @@ impl Runner for R {
                         // FIFO: the oldest message in the channel got this request id
                         if let Some(Some(i)) = self.channel.pop_front() {
                             self.reqs[i].rid = Some(rid);
+                            // the stored deadline is submit time + timeout: a day, or nothing at all
+                            let abs = self.clock + if self.reqs[i].late { 0 } else { 86_400 };
+                            self.store_deadline(rid, abs);
                         }
                         self.queued = self.queued.saturating_sub(1);
                         format!("sent {}", rid)
@@ -544,35 +629,66 @@ impl Runner for R {
             ["sweep"] => {
                 let next = self.transport.as_mut().unwrap().next_timeout();
                 let (st, v) = self.collect("sweep");
-                // deadlines are whole multiples of 100 s relative to the start of the case
+                let v = match v {
+                    Verdict::Ok => self.schedule_oracle(next, "sweep"),
+                    v => v,
+                };
                 let nx = match next {
                     None => "-".to_string(),
-                    Some(t) => {
-                        let secs = t.saturating_duration_since(self.base).as_secs_f64();
-                        format!("{}", ((secs / 100.0).round() as i64) * 100)
-                    }
+                    Some(t) => format!("{}", self.rel(t)),
                 };
                 (format!("ok next={} {}", nx, st), v)
+            }
+            ["wake"] => {
+                // what the timeout branch of `wait_for_outgoing_message` does when nothing else happens:
+                // next_timeout(), sleep until exactly that instant, next_timeout() again
+                let next = self.transport.as_mut().unwrap().next_timeout();
+                // what was already overdue when the op started is not the transport's doing
+                let (mut done, mut v) = self.collect_raw("wake-presweep");
+                if matches!(v, Verdict::Ok) {
+                    v = self.schedule_oracle(next, "wake");
+                }
+                let at = match next {
+                    None => "-".to_string(),
+                    Some(t) => {
+                        let rel = self.rel(t);
+                        self.clock += rel;
+                        let pending: Vec<u32> = self.transport.as_ref().unwrap().pending().iter().map(|x| x.0).collect();
+                        for rid in pending {
+                            if let Some(abs) = self.dl.get(&rid).copied() {
+                                self.store_deadline(rid, abs);
+                            }
+                        }
+                        let next2 = self.transport.as_mut().unwrap().next_timeout();
+                        let (d2, v2) = self.collect_raw("wake");
+                        done.extend(d2);
+                        if matches!(v, Verdict::Ok) {
+                            v = v2;
+                        }
+                        if matches!(v, Verdict::Ok) {
+                            v = self.schedule_oracle(next2, "wake");
+                        }
+                        format!("{}", rel)
+                    }
+                };
+                // done lists are printed sorted by request number
+                done.sort_by_key(|d| d.split(':').next().unwrap().parse::<usize>().unwrap());
+                (format!("ok at={} {}", at, self.fmt_state(&done)), v)
             }
             ["deadline", rid, k] => {
                 let rid: u32 = rid.parse().unwrap();
                 let k: i64 = k.parse().unwrap();
-                let at = if k >= 0 {
-                    self.base + Duration::from_secs(k as u64)
-                } else {
-                    self.base.checked_sub(Duration::from_secs((-k) as u64)).unwrap_or(self.base)
-                };
-                let ok = self.transport.as_mut().unwrap().set_deadline(rid, at);
-                if ok {
-                    for r in self.reqs.iter_mut() {
-                        if r.rid == Some(rid) && r.outcome.is_none() {
-                            r.expired = k <= 0;
-                        }
-                    }
-                }
+                let abs = self.clock + k;
+                let ok = self.store_deadline(rid, abs);
                 (format!("ok {}", b(ok)), Verdict::Ok)
             }
-            ["chunk", rid, seq, kind, msg, idx, total] => {
+            ["chunk", rid, seq, kind, msg, idx, total, rest @ ..] => {
+                let mt = match rest {
+                    [] | ["M"] => MessageChunkType::Message,
+                    ["O"] => MessageChunkType::OpenSecureChannel,
+                    ["C"] => MessageChunkType::CloseSecureChannel,
+                    _ => return ("bad-op".to_string(), Verdict::Ok),
+                };
                 let rid: u32 = rid.parse().unwrap();
                 let seq: u32 = seq.parse().unwrap();
                 let msg: u32 = msg.parse().unwrap();
@@ -590,7 +706,7 @@ impl Runner for R {
                 let body = piece(msg, idx, total);
                 let chunk = {
                     let sc = self.secure_channel.read();
-                    MessageChunk::new(seq, rid, MessageChunkType::Message, is_final, &sc, &body).unwrap()
+                    MessageChunk::new(seq, rid, mt, is_final, &sc, &body).unwrap()
                 };
                 if idx == 0 {
                     self.seen_for_rid.entry(rid).or_default().push(msg);
